@@ -100,6 +100,12 @@ type Case struct {
 	// Threshold: value of ego.server.compression.threshold; "" = unset.
 	Threshold string `json:"threshold,omitempty"`
 
+	// overlap / storm: several writer cases in flight at once (overlap_test.go).
+	// Threshold above is shared by all parts.
+	Parts   []Case   `json:"parts,omitempty"`
+	Hooks   []string `json:"hooks,omitempty"`
+	Workers int      `json:"workers,omitempty"`
+
 	// minify (and writer with Body "raw")
 	Text string `json:"text,omitempty"`
 	// How the text was produced (label only).
@@ -379,6 +385,12 @@ func documentedAccept(has bool, value string) (accept, known bool) {
 var thresholds = []string{"", "", "", "0", "1", "64", "256", "1000", "4096", "100000"}
 
 func gen(t *rapid.T) Case {
+	switch rapid.IntRange(0, 19).Draw(t, "inflight") {
+	case 0, 1:
+		return genInFlight(t, "overlap")
+	case 2:
+		return genInFlight(t, "storm")
+	}
 	depth := rapid.SampledFrom([]int{0, 1, 1, 2, 2, 3, 3}).Draw(t, "depth")
 	if rapid.Bool().Draw(t, "case") {
 		n := genRoot(t, depth)
@@ -528,6 +540,8 @@ func oracle(c Case) vkit.Outcome {
 		return oracleMinify(c)
 	case "writer":
 		return oracleWriter(c)
+	case "overlap", "storm":
+		return oracleInFlight(c)
 	}
 	return vkit.Outcome{Skip: "unknown kind"}
 }
@@ -571,14 +585,13 @@ func oracleMinify(c Case) vkit.Outcome {
 	return out
 }
 
-func oracleWriter(c Case) vkit.Outcome {
-	var out vkit.Outcome
-	var body any
+// writerPrep builds the value a handler would pass to util.WriteJSON and the
+// value its body must decode to.
+func writerPrep(c Case) (body any, want any, compact []byte, skip string) {
 	switch c.Body {
 	case "raw":
 		if !utf8.ValidString(c.Text) || !json.Valid([]byte(c.Text)) {
-			out.Skip = "generated text is not valid JSON"
-			return out
+			return nil, nil, nil, "generated text is not valid JSON"
 		}
 		body = json.RawMessage(c.Text)
 	default:
@@ -593,28 +606,50 @@ func oracleWriter(c Case) vkit.Outcome {
 	}
 	compact, err := json.Marshal(body)
 	if err != nil {
-		out.Skip = "value cannot be marshalled"
-		return out
+		return nil, nil, nil, "value cannot be marshalled"
 	}
-	want, err := decodeOne(compact)
+	want, err = decodeOne(compact)
 	if err != nil {
-		out.Skip = "marshalled value does not decode"
-		return out
+		return nil, nil, nil, "marshalled value does not decode"
 	}
+	return body, want, compact, ""
+}
 
-	if c.Threshold == "" {
+func setThreshold(th string) {
+	if th == "" {
 		settings.DeleteDefault(defs.ServerCompressionThresholdSetting)
 	} else {
-		settings.SetDefault(defs.ServerCompressionThresholdSetting, c.Threshold)
+		settings.SetDefault(defs.ServerCompressionThresholdSetting, th)
 	}
+}
+
+// writerSend performs the response through w as a handler does.
+func writerSend(c Case, body any, w http.ResponseWriter) (indented []byte, acceptsGzip bool, length int) {
 	req := httptest.NewRequest(http.MethodGet, "/tables/x/rows", nil)
 	if c.HasAE {
 		req.Header["Accept-Encoding"] = []string{c.AcceptEncoding}
 	}
-	length := 0
 	info := util.ResponseInfo{SessionID: 1, AcceptsGzip: util.AcceptsGzip(req), Length: &length}
+	indented = util.WriteJSON(w, info, http.StatusOK, body)
+	return indented, info.AcceptsGzip, length
+}
+
+func oracleWriter(c Case) vkit.Outcome {
+	var out vkit.Outcome
+	body, want, compact, skip := writerPrep(c)
+	if skip != "" {
+		out.Skip = skip
+		return out
+	}
+	setThreshold(c.Threshold)
 	rec := httptest.NewRecorder()
-	indented := util.WriteJSON(rec, info, http.StatusOK, body)
+	indented, acceptsGzip, length := writerSend(c, body, rec)
+	return writerJudge(c, rec, indented, acceptsGzip, length, want, compact)
+}
+
+// writerJudge decides one finished response.
+func writerJudge(c Case, rec *httptest.ResponseRecorder, indented []byte, acceptsGzip bool, length int, want any, compact []byte) vkit.Outcome {
+	var out vkit.Outcome
 	res := rec.Result()
 	raw, _ := io.ReadAll(res.Body)
 
@@ -638,7 +673,7 @@ func oracleWriter(c Case) vkit.Outcome {
 		fmt.Sprintf("writer special=%v ends-in-backslash=%v", special, endsBS),
 		fmt.Sprintf("writer escaped-backslash-before-quote=%v", pattern),
 		fmt.Sprintf("writer unicode-space-in-string=%v", uni),
-		fmt.Sprintf("writer %s accepts-gzip=%v sent-encoding=%q", side, info.AcceptsGzip, enc),
+		fmt.Sprintf("writer %s accepts-gzip=%v sent-encoding=%q", side, acceptsGzip, enc),
 		fmt.Sprintf("writer depth=%d", depthOf(want)),
 	}
 
@@ -737,7 +772,7 @@ func fixed() []Case {
 			}
 		}
 	}
-	return cs
+	return append(cs, fixedInFlight()...)
 }
 
 func TestMain(m *testing.M) {
@@ -766,6 +801,7 @@ func TestC19(t *testing.T) {
 			"Accept-Encoding example and a compression threshold in {unset,0,1,64,256,1000,4096,100000}; the body, gunzipped iff Content-Encoding says so, " +
 			"must decode to Unmarshal(Marshal(value)). minify: any spelling of such a value (drawn white space between tokens, drawn escape spelling per rune, " +
 			"MarshalIndent / Encoder output with odd prefix and indent, compact) through JSONMinify; output valid and decoding to the same value. " +
+			"in flight: 2..4 such responses nested at a drawn point of each other's writing (overlap, deterministic) or 6..16 written by 2..6 goroutines at once (storm); each body judged against its own value (non-trivial: at least two of them compressed). " +
 			"Non-trivial: some key or string value contains a backslash, a quote or white space; distinct by value/text (writer: plus header, threshold, repeat).",
 		Assumptions: []string{
 			"encoding/json (Marshal, Unmarshal with UseNumber, Valid) and compress/gzip are the reference for JSON meaning and gzip decoding",
